@@ -96,18 +96,6 @@ func (r *Reader) validate() error {
 		}
 	}
 
-	// Check for at least one slide
-	hasSlide := false
-	for name := range fileMap {
-		if strings.HasPrefix(name, "ppt/slides/slide") && strings.HasSuffix(name, ".xml") {
-			hasSlide = true
-			break
-		}
-	}
-	if !hasSlide {
-		return fmt.Errorf("no slides found in presentation")
-	}
-
 	return nil
 }
 
@@ -148,9 +136,38 @@ func (r *Reader) parsePresentation() error {
 	return xml.Unmarshal(data, r.presentation)
 }
 
-// parseSlides parses all slide files.
-func (r *Reader) parseSlides() error {
-	// Find all slide files
+// declaredSlides returns the slide parts in presentation order: the entries of
+// <p:sldIdLst> in presentation.xml, each resolved through the presentation
+// relationships (targets are relative to ppt/ unless they start with "/").
+func (r *Reader) declaredSlides() []string {
+	if r.presentation == nil || r.presentation.SlideIdList == nil || r.presRels == nil {
+		return nil
+	}
+
+	targets := make(map[string]string, len(r.presRels.Relationship))
+	for _, rel := range r.presRels.Relationship {
+		targets[rel.ID] = rel.Target
+	}
+
+	slideFiles := make([]string, 0, len(r.presentation.SlideIdList.SlideId))
+	for _, sldID := range r.presentation.SlideIdList.SlideId {
+		target, ok := targets[sldID.RID]
+		if !ok || target == "" {
+			continue
+		}
+		if strings.HasPrefix(target, "/") {
+			target = strings.TrimPrefix(target, "/")
+		} else {
+			target = path.Join("ppt", target)
+		}
+		slideFiles = append(slideFiles, target)
+	}
+	return slideFiles
+}
+
+// discoverSlides finds slide files by name and sorts them by their number.
+// It is only used for presentations that do not list their slides.
+func (r *Reader) discoverSlides() []string {
 	slideFiles := make([]string, 0)
 	for _, f := range r.zipReader.File {
 		if strings.HasPrefix(f.Name, "ppt/slides/slide") && strings.HasSuffix(f.Name, ".xml") {
@@ -165,6 +182,20 @@ func (r *Reader) parseSlides() error {
 	sort.Slice(slideFiles, func(i, j int) bool {
 		return extractSlideNumber(slideFiles[i]) < extractSlideNumber(slideFiles[j])
 	})
+	return slideFiles
+}
+
+// parseSlides parses all slide files.
+func (r *Reader) parseSlides() error {
+	// The presentation declares its slides and their order; file names and
+	// archive order carry no meaning.
+	slideFiles := r.declaredSlides()
+	if len(slideFiles) == 0 {
+		slideFiles = r.discoverSlides()
+	}
+	if len(slideFiles) == 0 {
+		return fmt.Errorf("no slides found in presentation")
+	}
 
 	r.slides = make([]*Slide, 0, len(slideFiles))
 
